@@ -81,7 +81,7 @@ struct SIMDVector<int32_t,simd_abi::avx512> {
         value = _mm512_setzero_si512();
         for (FASTOR_INDEX i=0; i<Size; ++i) {
             if (maska[i] == -1) {
-                ((scalar_value_type*)&value)[Size - i - 1] = a[Size - i - 1];
+                ((int32_lane_t*)&value)[Size - i - 1] = a[Size - i - 1];
             }
         }
         unused(Aligned);
@@ -99,7 +99,7 @@ struct SIMDVector<int32_t,simd_abi::avx512> {
         mask_to_array(mask,maska);
         for (FASTOR_INDEX i=0; i<Size; ++i) {
             if (maska[i] == -1) {
-                a[Size - i - 1] = ((const scalar_value_type*)&value)[Size - i - 1];
+                a[Size - i - 1] = ((const int32_lane_t*)&value)[Size - i - 1];
             }
         }
         unused(Aligned);
@@ -434,7 +434,7 @@ struct SIMDVector<int32_t,simd_abi::avx> {
         value = _mm256_setzero_si256();
         for (FASTOR_INDEX i=0; i<Size; ++i) {
             if (maska[i] == -1) {
-                ((scalar_value_type*)&value)[Size - i - 1] = a[Size - i - 1];
+                ((int32_lane_t*)&value)[Size - i - 1] = a[Size - i - 1];
             }
         }
         unused(Aligned);
@@ -452,7 +452,7 @@ struct SIMDVector<int32_t,simd_abi::avx> {
         mask_to_array(mask,maska);
         for (FASTOR_INDEX i=0; i<Size; ++i) {
             if (maska[i] == -1) {
-                a[Size - i - 1] = ((const scalar_value_type*)&value)[Size - i - 1];
+                a[Size - i - 1] = ((const int32_lane_t*)&value)[Size - i - 1];
             }
         }
         unused(Aligned);
@@ -759,7 +759,7 @@ struct SIMDVector<int32_t,simd_abi::sse> {
         value = _mm_setzero_si128();
         for (FASTOR_INDEX i=0; i<Size; ++i) {
             if (maska[i] == -1) {
-                ((scalar_value_type*)&value)[Size - i - 1] = a[Size - i - 1];
+                ((int32_lane_t*)&value)[Size - i - 1] = a[Size - i - 1];
             }
         }
         unused(Aligned);
@@ -777,7 +777,7 @@ struct SIMDVector<int32_t,simd_abi::sse> {
         mask_to_array(mask,maska);
         for (FASTOR_INDEX i=0; i<Size; ++i) {
             if (maska[i] == -1) {
-                a[Size - i - 1] = ((const scalar_value_type*)&value)[Size - i - 1];
+                a[Size - i - 1] = ((const int32_lane_t*)&value)[Size - i - 1];
             }
         }
         unused(Aligned);
